@@ -153,7 +153,14 @@ class Cid(object):
         assert base_class is not None
         result = {}
         # NOTE: we use a ``set`` of subclasses to ignore duplicates.
-        for class_to_process in set(base_class.__subclasses__()):
+        classes_to_process = set()
+        classes_to_scan_for_subclasses = [base_class]
+        while classes_to_scan_for_subclasses:
+            for subclass in classes_to_scan_for_subclasses.pop().__subclasses__():
+                if subclass not in classes_to_process:
+                    classes_to_process.add(subclass)
+                    classes_to_scan_for_subclasses.append(subclass)
+        for class_to_process in classes_to_process:
             qualified_class_name = class_to_process.__name__
             plain_class_name = qualified_class_name.split(".")[-1]
             clashing_class = result.get(plain_class_name)
